@@ -41,6 +41,8 @@ pub enum Inject {
     /// " name" / empty: an unknown chromosome or a shifted line)
     LeadingSpace,
     LeadingTab,
+    /// bigWig: the chromosome's last item is empty and lies wholly beyond the chromosome end
+    BwEmptyBeyondEnd,
 }
 
 #[derive(Serialize, Deserialize, Clone, Copy, Debug, PartialEq)]
@@ -217,6 +219,13 @@ fn build(case: &Case) -> Built {
             let (_, size, items) = &mut chroms[ck];
             let k = if case.item_sel == 3 { 0 } else { pick(case.item_sel, items.len() - 1) + 1 };
             *size = items[k].1 - 1;
+        }
+        Inject::BwEmptyBeyondEnd => {
+            let (_, size, items) = &mut chroms[ck];
+            let top = items.iter().map(|i| i.1.max(i.0)).max().unwrap_or(0).max(*size);
+            *size = top;
+            let p = top + 1 + (case.item_sel as u32 % 3) * 4;
+            items.push((p, p, payload.clone()));
         }
         Inject::BbStartOrder => insert_after(&mut chroms, vec![(5, 9), (1, 9)], false),
         Inject::BbStartGeSize => {
@@ -413,7 +422,7 @@ fn inject_for(bw: bool) -> BoxedStrategy<Inject> {
     ];
     let mut v = common;
     if bw {
-        v.extend([Inject::BwOutOfOrder, Inject::BwOverlap, Inject::BwEndGtSize]);
+        v.extend([Inject::BwOutOfOrder, Inject::BwOverlap, Inject::BwEndGtSize, Inject::BwEmptyBeyondEnd]);
         v.extend((0..OVERLAP_SHAPES.len() as u8).map(Inject::BwOverlapShape));
     } else {
         v.extend([Inject::BbStartOrder, Inject::BbStartGeSize]);
@@ -471,7 +480,7 @@ impl Prop for C13 {
     const ID: &'static str = "C13";
     const TERMINATION: bool = true;
     fn rule() -> String {
-        "a valid multi-chromosome input with ONE violation injected at a generated position: class in {bigWig out-of-order, overlap (also eight shapes of the offender after a value (0,4): zero-length at its start / inside it, nested, identical, longer, ending inside), start>end, end>size; bigBed start order, start>=size; \
+        "a valid multi-chromosome input with ONE violation injected at a generated position: class in {bigWig out-of-order, overlap (also eight shapes of the offender after a value (0,4): zero-length at its start / inside it, nested, identical, longer, ending inside), start>end, end>size (also an EMPTY last item wholly beyond the end); bigBed start order, start>=size; \
          unknown chromosome; chromosome order with sorted input required; malformed line (non-numeric, missing column, negative, blank, a valid record behind a leading space / tab); empty input} x {in front of the first, after the first, middle, last item} x {first, middle, last chromosome} \
          x {bigWig, bigBed} x {infallible iterator, fallible iterator, serial text, parallel text} x {single, two pass} (that grid once as fixed cases, plus generated bases/options); \
          oracle: the call returns Err (Ok is a violation), does not panic and returns within the deadline; valid degenerate inputs (only zero-length items, one item, items only at 0 / at the end, one chromosome all zero-length) must return, and if Ok the file must read back. \
@@ -585,7 +594,7 @@ impl Prop for C13 {
         for bw in [true, false] {
             let classes: Vec<Inject> = if bw {
                 let mut c = vec![
-                    Inject::BwOutOfOrder, Inject::BwOverlap, Inject::StartGtEnd, Inject::BwEndGtSize, Inject::UnknownChrom,
+                    Inject::BwOutOfOrder, Inject::BwOverlap, Inject::StartGtEnd, Inject::BwEndGtSize, Inject::BwEmptyBeyondEnd, Inject::UnknownChrom,
                     Inject::ChromOrder, Inject::NonNumeric, Inject::MissingColumn, Inject::Negative, Inject::Blank, Inject::Empty,
                     Inject::LeadingSpace, Inject::LeadingTab,
                 ];
